@@ -13,38 +13,73 @@ THEOREMS = [
     "Rtosc.Osc.V.length_zero_or_le",
     "Rtosc.Osc.V.valid_accessors_in_bounds",
     "Rtosc.Osc.V.valid_accessors_eq_decodeLax",
+    "Rtosc.Osc.V.valid_accessors_eq_encoding",
     "Rtosc.Osc.V.valid_accessors_eq_decode_partial",
     "Rtosc.Osc.V.valid_accessors_eq_decode_counterexample",
+    "Rtosc.Osc.V.decode_encode",
+    "Rtosc.Osc.V.decode_eq_some_iff",
+    "Rtosc.Osc.V.decode_wf",
+    "Rtosc.Osc.V.nonCanonical_iff",
 ]
-HARNESS = {"src": ["valid.cpp"], "deps": ["common.h"]}
-RULE = ("one case = one byte buffer of 0..512 bytes handed to rtosc_message_length / rtosc_valid_message_p in an "
-        "exact-size heap block (for n=0: the end of a block) under ASan, and, when the validator accepts, to every "
-        "reader. Streams: all buffers up to 4 bytes over an 8-symbol alphabet (exhaustive: 4681) and all tails of 3 "
+HARNESS = {"src": ["valid.cpp", "valid_rtosc_dbg.c"], "exclude": ["src/rtosc.c"], "deps": ["common.h"]}
+RULE = ("one case = one byte buffer of 0..512 bytes handed to rtosc_message_length / rtosc_valid_message_p under ASan "
+        "and, when the validator accepts, to every reader - in SEVEN placements whose answers must be the same text: "
+        "a fresh exact-size heap block at pointer alignment 0, 1, 2 and 3 mod 4 (buffer right-aligned, red zone at "
+        "msg+n; for n=0 the end of a block), and a long-lived arena in which the same pointer and length held, for the "
+        "calls just before, a valid message / a rejected buffer / a valid one-string message (bytes in front poisoned). "
+        "Compared with the model: the validator's verdict, every reader result on accepted buffers (string and blob "
+        "payloads followed; the data pointer of an empty blob is not observed), crashes and hangs; the value of "
+        "rtosc_message_length where it is defined by more than '0 or <= n': on accepted buffers, when it exceeds n, "
+        "and when the first len bytes are themselves an accepted message (otherwise `len=ok`). "
+        "Streams: all buffers up to 4 bytes over an 8-symbol alphabet (exhaustive: 4681) and all tails of 3 "
         "and 7 bytes behind the prefix '/a\\0\\0,' over a 6-symbol alphabet (3 bytes exhaustive; 7 bytes exhaustive "
         "in the thorough tier, sampled in the quick tier; 11 bytes sampled); canonical messages over all 17 tags, "
-        "unknown tags and brackets (every single tag, every pair), every address length 1..40; their structure-aware "
-        "mutations (truncation at every offset, blob lengths 0x7fffffff..0xffffffff and off-by-k around the "
-        "remaining bytes, non-zero padding at every padding byte, NUL first byte of strings, terminators removed, "
-        "tags swapped, bytes flipped/inserted/deleted, trailing bytes, path mutations); random bytes over a biased "
-        "alphabet up to 512; bundles and malformed bundles (element sizes that wrap the position, truncation at "
-        "every offset); a coverage-guided stream (libFuzzer on the working tree's rtosc.c from a seed corpus of "
-        "canonical messages: every input that added coverage, every crash/timeout artifact). Non-trivial = at least "
-        "8 bytes starting with '/' or '#bundle'; distinct = distinct buffer")
+        "unknown tags and brackets (every single tag, every pair), every address length 1..40, and - inside the 512 "
+        "bytes - one string/blob of 60..480 bytes or the largest that fits, type strings of 25..400 tags, addresses of "
+        "41..470 bytes; size sweeps: an address, a type string, a string argument and a blob of EVERY length that fits "
+        "(thorough; quick: every length around 2^6, 2^7, 2^8 and near the maximum, every third elsewhere), each also "
+        "as a NUL-free run WITHOUT terminator that ends the buffer; structure-aware mutations (truncation at every "
+        "offset, blob lengths 0x7fffffff..0xffffffff and off-by-k around the remaining bytes, non-zero padding at "
+        "every padding byte, NUL first byte of strings, terminators removed, a payload or the whole argument area "
+        "replaced by a NUL-free run of 63..264 / maximal length with and without terminator, tags swapped, bytes "
+        "flipped/inserted/deleted, trailing bytes, path mutations); random bytes over a biased alphabet up to 512; "
+        "bundles and malformed bundles (element sizes that wrap the position, truncation at every offset, size fields "
+        "that send the walk back onto an earlier field); a coverage-guided stream (libFuzzer on the working tree's "
+        "rtosc.c from a seed corpus of canonical messages incl. large ones: every input that added coverage, every "
+        "crash/timeout artifact). Non-trivial = at least 8 bytes starting with '/' or '#bundle'; distinct = distinct "
+        "buffer")
 ASSUMPTIONS = ["buffer length n < 2^31 (positions are `unsigned`, sizes `int`); generated buffers have n <= 512",
                "the block handed to the functions has exactly n bytes (len argument = block size)",
-               "the readers are only required to be safe on buffers the validator accepted"]
+               "the readers are only required to be safe on buffers the validator accepted",
+               "the answer is a function of the n bytes: any pointer alignment, no state kept between calls (the Lean "
+               "model has offsets only; tested by the seven placements of every case, not proved)",
+               "C locale: isprint() in rtosc_valid_message_p (rtosc.c:687) is modelled as 32 <= c <= 126; the harness "
+               "runs with LC_ALL=C and never calls setlocale",
+               "src/rtosc.c is compiled into the harness with its assert()s enabled (harness/valid_rtosc_dbg.c), the rest of "
+               "the library with -DNDEBUG as the runner does for every harness; an assertion failure counts as a crash",
+               "the caller's buffer is not modified while the functions run (single thread)"]
 TRUSTED = ["hand-written models RtoscModel/Osc/Valid.lean (length, validator) and RtoscModel/Osc/Read.lean (readers, "
            "shared with C01) of src/rtosc.c",
-           "Python reference decoders (strict and padding-blind) in tools/props/c07.py; libFuzzer/clang-14 only as an "
-           "input generator"]
+           "Python reference decoders (strict and padding-blind) in tools/props/c07.py (the Lean reference decoder is "
+           "proved to be the inverse of the OSC 1.0 encoder Spec.encode; the Python one is a transcription of it, "
+           "cross-checked against the compiled Lean decoder on every non-canonical buffer of a run); libFuzzer/clang-14 "
+           "only as an input generator"]
 LEVEL_TEXT = ("Lean theorems over all byte strings shorter than 2^31: rtosc_message_length and rtosc_valid_message_p "
               "terminate, read no byte outside the block, report 0 or a length <= n; whenever the validator accepts, "
               "argument string, count, type and argument by index and the iterator read only inside the block "
-              "(string terminators and blob extents included) and return exactly what the padding-blind reference "
-              "decoder returns, and what the strict OSC 1.0 decoder returns unless the buffer is non-canonical "
-              "(known finding C07-K1). The model is compared with the compiled implementation (ASan/UBSan) on tens "
-              "of thousands of generated buffers per run and the property is evaluated directly on the "
-              "implementation's output by independent Python decoders")
+              "(string terminators and blob extents included), the buffer is the OSC 1.0 encoding (Spec.encode, the "
+              "encoder C01 is stated against) of a message m up to the content of bytes that are NUL in that encoding, "
+              "and the readers return exactly the tags and values of m - which is what the padding-blind reference "
+              "decoder returns, and what the strict OSC 1.0 decoder returns unless the buffer is non-canonical (known "
+              "finding C07-K1; proved equivalent to: some padding byte is not NUL or some tag is not one of the 17). "
+              "The strict reference decoder is proved to be exactly the inverse of Spec.encode (decode bs = some m iff "
+              "m canonical and encode m = bs). The model is compared with the compiled implementation (ASan/UBSan, "
+              "seven placements per buffer) on some 250 000 generated buffers per quick run and the property is "
+              "evaluated directly on the implementation's output by independent Python decoders")
+LEVEL_NOTE = ("Trusted: Lean kernel; the hand-written model is tied to the code by differential execution only; see "
+              "evidence trusted_base. Not proved: independence of pointer alignment and of earlier calls (tested on every case); the exact "
+              "value of rtosc_message_length on rejected buffers that do not start with an accepted message is not "
+              "compared (the property only asks 0 or <= n)")
 
 VERIF = os.path.dirname(os.path.dirname(os.path.dirname(os.path.abspath(__file__))))
 TAGS = b"ifsbhtdScrmTFNI[]"
@@ -150,7 +185,7 @@ def show(t, v, off):
     if c in b"sS":
         return p + "@%d:%s" % (off, hx(v))
     if c == b"b":
-        return p + "%d@%d:%s" % (len(v), off, hx(v))
+        return p + ("%d@%d:%s" % (len(v), off, hx(v)) if v else "0@-:-")   # empty blob: data pointer not observed
     if c in b"TF":
         return p + ("1" if v else "0")
     return p + "-"
@@ -172,26 +207,50 @@ def parse_out(out):
     if len(w) < 2 or not w[0].startswith("len=") or not w[1].startswith("valid="):
         return None
     try:
-        return int(w[0][4:]), int(w[1][6:]), (w[2] if len(w) > 2 else "")
+        # `len=ok`: a rejected buffer whose reported length is 0 or <= n (all the property asks)
+        return (None if w[0] == "len=ok" else int(w[0][4:])), int(w[1][6:]), (w[2] if len(w) > 2 else "")
     except ValueError:
         return None
 
 
+PLACEMENTS = {"fresh0": "fresh block, pointer = 0 mod 4", "fresh1": "fresh block, pointer = 1 mod 4",
+              "fresh2": "fresh block, pointer = 2 mod 4", "fresh3": "fresh block, pointer = 3 mod 4",
+              "arena-v": "same pointer and length as a valid message seen by the previous calls",
+              "arena-j": "same pointer and length as a rejected buffer seen by the previous calls",
+              "arena-s": "same pointer and length as a valid one-string message seen by the previous calls"}
+
+
 def oracle(op, out):
+    """The property on what the implementation printed.  When the seven placements of the buffer (see
+    harness/valid.cpp) do not give one answer, the property is evaluated on each answer: it speaks about the
+    n bytes, wherever they are kept and whatever was validated before."""
     w = op.split()
     if w[0] != "V":
         return None
     bs = unhx(w[1])
+    if out.startswith("unstable || "):
+        for part in out.split(" || ")[1:]:
+            name, _, o = part.partition(": ")
+            f = oracle_one(bs, o)
+            if f is not None:
+                return "%s [placement %s: %s]" % (f, name, PLACEMENTS.get(name, "?"))
+        return None
+    return oracle_one(bs, out)
+
+
+def oracle_one(bs, out):
     n = len(bs)
     if out.startswith("crash:signal:27"):
         return "does not terminate (killed by the CPU-time watchdog)"
+    if out.startswith("crash:signal:6"):
+        return "aborts on untrusted bytes (assertion failure / abort()): %s" % out
     if out.startswith("crash"):
         return "read outside the %d-byte block or crash: %s" % (n, out)
     p = parse_out(out)
     if p is None:
         return "unparsable output"
     ln, valid, rd = p
-    if ln != 0 and ln > n:
+    if ln is not None and ln != 0 and ln > n:
         return "rtosc_message_length returned %d for %d bytes" % (ln, n)
     if valid:
         d = decode(bs, True)
@@ -279,25 +338,54 @@ def rand_bytes(rng, n, nul=True):
                  for _ in range(n)) if nul else bytes(rng.randint(1, 255) for _ in range(n))
 
 
-def enc_args(rng, tags, marks):
+MAXLEN = 512
+# payload sizes that drive every scan / copy loop of the code past 2^6, 2^7, 2^8 rounds inside the 512-byte domain
+BIG = [60, 63, 64, 65, 100, 124, 127, 128, 129, 200, 250, 252, 253, 254, 255, 256, 257, 258, 259, 260, 261, 264,
+       300, 384, 400, 448, 480]
+
+
+def small_size(rng, kind):
+    if kind == "s":
+        return rng.choice([0, 0, 1, 2, 3, 4, 5, 7, 8, rng.randint(0, 20)])
+    return rng.choice([0, 0, 1, 2, 3, 4, 5, 8, rng.randint(0, 24)])
+
+
+def enc_size(t, k):
+    """encoded size of one argument of tag t with a k-byte payload"""
+    c = bytes([t])
+    if c in W32 or c == b"m":
+        return 4
+    if c in W64:
+        return 8
+    if c in b"sS":
+        return k + 4 - k % 4
+    if c == b"b":
+        return 4 + k + (-k) % 4
+    return 0
+
+
+def enc_args(rng, tags, marks, sizes=None):
     """canonical argument bytes; `marks` collects (kind, start, end) regions relative to the
-    start of the arguments: 'pad' padding bytes, 'len' blob length fields, 'nul' terminators."""
+    start of the arguments: 'pad' padding bytes, 'len' blob length fields, 'nul' terminators.
+    `sizes`: payload size per tag index (strings, blobs); default: small sizes."""
     out = bytearray()
-    for t in tags:
+    for i, t in enumerate(tags):
         c = bytes([t])
         if c in W32 or c == b"m":
             out += struct.pack(">I", rng.choice([0, 1, 0x7fffffff, 0x80000000, 0xffffffff, rng.getrandbits(32)]))
         elif c in W64:
             out += struct.pack(">Q", rng.choice([0, 1, 2 ** 63, 2 ** 64 - 1, rng.getrandbits(64)]))
         elif c in b"sS":
-            s = rand_bytes(rng, rng.choice([0, 0, 1, 2, 3, 4, 5, 7, 8, rng.randint(0, 20)]), nul=False)
+            k = sizes[i] if sizes and i in sizes else small_size(rng, "s")
+            s = rand_bytes(rng, k, nul=False)
             marks.append(("nul", len(out) + len(s), len(out) + len(s) + 1))
             marks.append(("str0", len(out), len(out) + 1))
             e = pad_str(s)
             marks.append(("pad", len(out) + len(s) + 1, len(out) + len(e)))
             out += e
         elif c == b"b":
-            d = rand_bytes(rng, rng.choice([0, 0, 1, 2, 3, 4, 5, 8, rng.randint(0, 24)]))
+            k = sizes[i] if sizes and i in sizes else small_size(rng, "b")
+            d = rand_bytes(rng, k)
             marks.append(("len", len(out), len(out) + 4))
             out += struct.pack(">I", len(d)) + d
             pl = (-len(d)) % 4
@@ -306,15 +394,30 @@ def enc_args(rng, tags, marks):
     return bytes(out)
 
 
-def make_msg(rng, tags=None, addr=None):
-    """-> (bytes, marks) with marks in absolute offsets; plus ('tags', a, b), ('tnul', ..), ('apad', ..)."""
+def make_msg(rng, tags=None, addr=None, big=None):
+    """-> (bytes, marks) with marks in absolute offsets; plus ('tags', a, b), ('tnul', ..), ('apad', ..).
+    `big`: one string/blob argument (chosen at random) gets a payload of `big` bytes — or, for big='max'
+    or when `big` bytes do not fit, the largest payload that keeps the message inside MAXLEN bytes."""
     addr = addr if addr is not None else rand_addr(rng)
     tags = tags if tags is not None else (rand_tags(rng, 0, 6) if rng.random() < 0.8 else rand_tags(rng, 0, 24))
     marks = []
     a = pad_str(addr)
     ts = pad_str(b"," + tags)
+    sizes = {}
+    for i, t in enumerate(tags):
+        if bytes([t]) in b"sS":
+            sizes[i] = small_size(rng, "s")
+        elif t == 0x62:
+            sizes[i] = small_size(rng, "b")
+    if big is not None and sizes:
+        i = rng.choice(sorted(sizes))
+        others = len(a) + len(ts) + sum(enc_size(t, sizes.get(j, 0)) for j, t in enumerate(tags) if j != i)
+        room = MAXLEN - others - (4 if tags[i] == 0x62 else 1)       # largest payload that still fits
+        room -= (room + (0 if tags[i] == 0x62 else 1)) % 4 if room > 0 else 0
+        if room >= 0:
+            sizes[i] = room if big == "max" or big > room else big
     rel = []
-    args = enc_args(rng, tags, rel)
+    args = enc_args(rng, tags, rel, sizes)
     base = len(a) + len(ts)
     marks.append(("apad", len(addr), len(a)))
     marks.append(("comma", len(a), len(a) + 1))
@@ -324,6 +427,118 @@ def make_msg(rng, tags=None, addr=None):
     for k, s, e in rel:
         marks.append((k, base + s, base + e))
     return a + ts + args, marks
+
+
+def fit_tags(rng, lo, hi):
+    """a long type string (lo..hi tags) whose canonical message still fits MAXLEN bytes with a short
+    address: mostly tags without payload, some 4/8-byte ones, a few small strings/blobs"""
+    k = rng.randint(lo, hi)
+    room = MAXLEN - 16 - (k + 5)
+    out = bytearray()
+    for _ in range(k):
+        t = rng.choice(b"TFNI[]TFNI[]TFNI[]xZ" if room < 40 else TAGS + b"TFNI[]iifhm")
+        if bytes([t]) in b"sSb":
+            room -= 32
+        else:
+            room -= enc_size(t, 0)
+        out.append(t)
+    return bytes(out)
+
+
+def nonul(rng, k):
+    c = rng.random()
+    if c < 0.4:
+        return bytes([rng.choice(b"Aaz/,s\xff\x01\x80")]) * k
+    return bytes(rng.randint(1, 255) for _ in range(k))
+
+
+def size_sweeps(rng, quick, stats):
+    """Every size of every variable-length part inside the 512-byte domain.
+    (kind, buffer): canonical messages with an address of every length, a type string with every number of
+    tags, a string argument and a blob of every length (so every scan loop of validator and readers runs 0, 1, 2,
+    ... up to ~500 rounds); and the same NUL-free runs WITHOUT a terminator inside the buffer (the buffer ends
+    inside the path / the type string / the string argument), which the validator has to reject however long the
+    run is.  Quick tier: every length in the windows around 2^6, 2^7, 2^8 and near the maximum, every third length
+    elsewhere (random phase)."""
+    ph = rng.randrange(3)
+
+    def pick(k, top):
+        if not quick:
+            return True
+        return k < 12 or k % 3 == ph or k > top - 10 or any(abs(k - c) <= 6 for c in (64, 128, 256))
+
+    heads = [b",s", b",S", b",si", b",ss", b",is", b",bs", b",sb", b",Ts", b",[s]"]
+    for k in range(0, MAXLEN):
+        # address of k+1 bytes
+        if pick(k, MAXLEN - 8) and k + 1 <= MAXLEN - 8:
+            addr = b"/" + bytes(rng.choice(b"abcxyz019/_-#*,{}[]? ~!") for _ in range(k))
+            m = pad_str(addr) + pad_str(b"," + rng.choice([b"", b"i", b"s", b"T"]))
+            tail = {0x69: struct.pack(">I", rng.getrandbits(32)), 0x73: pad_str(nonul(rng, rng.randint(0, 5)))}
+            m += tail.get(m[len(pad_str(addr)) + 1], b"")
+            if len(m) <= MAXLEN:
+                yield "addr", m
+        if pick(k, MAXLEN - 1) and k >= 1:
+            yield "addr-noterm", b"/" + (bytes(rng.randint(33, 126) for _ in range(k - 1)) if rng.random() < 0.5 else b"a" * (k - 1))
+        # k tags
+        if pick(k, MAXLEN - 12) and k <= MAXLEN - 12:
+            tg = bytes(rng.choice(b"TFNI[]") for _ in range(k))
+            yield "tags", b"/a\0\0" + pad_str(b"," + tg)
+            ni = min(k, (MAXLEN - 12 - k) // 4)
+            tg2 = bytearray(tg)
+            for j in rng.sample(range(k), ni) if ni and rng.random() < 0.7 else []:
+                tg2[j] = rng.choice(b"ifcrm")
+            m = b"/a\0\0" + pad_str(b"," + bytes(tg2)) + bytes(rng.getrandbits(8) for _ in range(4 * sum(t in b"ifcrm" for t in tg2)))
+            if len(m) <= MAXLEN:
+                yield "tags", m
+            yield "tags-noterm", b"/a\0\0," + bytes(rng.choice(b"TFNI[]i") for _ in range(k))
+        # string / blob of k bytes behind one of several heads
+        hd = rng.choice(heads)
+        pre = b"/a\0\0" if rng.random() < 0.7 else pad_str(rand_addr(rng))
+        for tag, kind in ((0x73, "str"), (0x62, "blob")):
+            tags = hd[1:] if tag == 0x73 else hd[1:].replace(b"s", b"b").replace(b"S", b"b")
+            if tag == 0x62 and rng.random() < 0.3:
+                tags = rng.choice([b"b", b"bi", b"bb", b"sb", b"bs"])
+            idx = [j for j, t in enumerate(tags) if t == tag or (tag == 0x73 and t == 0x53)]
+            j = rng.choice(idx)
+            sizes = {x: rng.choice([0, 1, 3, 4]) for x, t in enumerate(tags) if bytes([t]) in b"sSb"}
+            sizes[j] = k
+            head = pre + pad_str(b"," + tags)
+            if len(head) + sum(enc_size(t, sizes.get(x, 0)) for x, t in enumerate(tags)) > MAXLEN or not pick(k, MAXLEN - 20):
+                continue
+            m = head + enc_args(rng, tags, [], sizes)
+            yield kind, m
+        # an unterminated NUL-free run of k bytes as the last thing in the buffer
+        if k >= 1 and pick(k, MAXLEN - 8):
+            for hd2 in ([b",s", rng.choice(heads)] if quick else heads):
+                tags = hd2[1:]
+                j = [x for x, t in enumerate(tags) if bytes([t]) in b"sS"][-1]
+                head = b"/a\0\0" + pad_str(b"," + tags)
+                sizes = {x: rng.choice([0, 1, 3, 4]) for x, t in enumerate(tags[:j]) if bytes([t]) in b"sSb"}
+                front = enc_args(rng, tags[:j], [], sizes)
+                if len(head) + len(front) + k <= MAXLEN:
+                    yield "str-noterm", head + front + nonul(rng, k)
+
+
+def long_run_mutations(rng, m, marks):
+    """replace a string / blob payload, or everything behind the type string, by k NUL-free bytes, k around
+    2^6, 2^7, 2^8 and the largest that fits, with and without terminator"""
+    n = len(m)
+    starts = [s for k, s, e in marks if k == "str0"] + [s + 4 for k, s, e in marks if k == "len"]
+    base = [e for k, s, e in marks if k == "pad"][0]
+    for s in sorted(set(starts + [base]))[:3]:
+        room = MAXLEN - s
+        for k in sorted(set([63, 64, 65, 127, 128, 129, 252, 255, 256, 257, 260, 261, 264, room, room - 1, room - 4])):
+            if k < 1 or k > room:
+                continue
+            run = nonul(rng, k)
+            yield "run", m[:s] + run
+            if k + 1 <= room:
+                t = pad_str(run)[:room - 0]
+                yield "runz", (m[:s] + t)[:MAXLEN]
+            # the rest of the message behind the run (aligned): later arguments are taken from behind it
+            rest = m[s + 4:][:max(0, room - k - 4)]
+            if rest:
+                yield "runrest", (m[:s] + pad_str(run) + rest)[:MAXLEN]
 
 
 BLOB_LENS = [0x7fffffff, 0x80000000, 0xfffffff0, 0xfffffff4, 0xfffffff8, 0xfffffffc, 0xffffffff, 0x7ffffffc,
@@ -339,7 +554,7 @@ def mutate(rng, m, marks, stats):
     tagpos = [i for k, s, e in marks if k == "tags" for i in range(s, e)]
     str0 = [s for k, s, e in marks if k == "str0"]
     # non-zero padding: every padding byte once, and all of them together
-    for i in pads:
+    for i in (pads if len(pads) <= 24 else sorted(rng.sample(pads, 24))):
         b = bytearray(m)
         b[i] = rng.choice([1, 0x61, 0xff, 0x2c, 0x80])
         yield "pad1", bytes(b)
@@ -369,12 +584,12 @@ def mutate(rng, m, marks, stats):
         b[s] = rng.choice([0x61, 0x2c, 0xff])
         yield "nonul", bytes(b)
     # tags swapped / removed
-    for i in tagpos:
+    for i in (tagpos if len(tagpos) <= 24 else sorted(rng.sample(tagpos, 24))):
         b = bytearray(m)
         b[i] = rng.choice(b"ifsbhtdScrmTFNI[]xZ\x00\x01\xff,")
         yield "tag", bytes(b)
     # truncation at every offset (quick: a sample), extension
-    cuts = range(n) if n <= 48 else sorted(rng.sample(range(n), 48))
+    cuts = range(n) if n <= 48 else sorted(set(rng.sample(range(n), 28)) | set(range(n - 4, n)))
     for c in cuts:
         yield "trunc", m[:c]
     for k in (1, 2, 3, 4, 8):
@@ -468,10 +683,11 @@ def bundle_cycles(rng):
     deref() supplies behind the block — would move the 32-bit position *backwards* onto an earlier size field
     (4 + V = -(bytes walked since that field) mod 2^32): the walk of bundle_ring_length then never ends unless the
     "element has to fit" test rejects V.  A cut field needs the walked distance to be 252 mod 256 (3 bytes present)
-    or 65532 mod 65536 (2 bytes present)."""
-    for dist, keep in ((252, 3), (252, 3), (252, 3), (508, 3), (65532, 2)):
+    or 65532 mod 65536 (2 bytes present); inside the 512-byte domain only 252 itself fits (16 + 252 + 3 bytes and
+    up to two elements in front), so that is what is built."""
+    for dist, keep in ((252, 3), (252, 3), (252, 3), (252, 3)):
         # elements in front of the target field (any), then elements whose 4+L sum to `dist`
-        pre = [rng.choice([8, 12, 16, 40]) for _ in range(rng.randint(0, 2))]
+        pre = [rng.choice([8, 12, 16, 40, 100]) for _ in range(rng.randint(0, 2))]
         parts = []
         left = dist
         while left > 0:
@@ -576,6 +792,10 @@ def fuzz_stream(rng, tier, stats):
         for i in range(40):
             m, _ = make_msg(rng)
             open(os.path.join(work, "corpus", "seed%02d" % i), "wb").write(m)
+        for i, big in enumerate([64, 128, 255, 256, 257, 300, "max", "max"]):
+            m, _ = make_msg(rng, tags=rng.choice([b"s", b"b", b"sb", b"bs", b"isb", b"bsi"]), big=big)
+            open(os.path.join(work, "corpus", "seedbig%02d" % i), "wb").write(m[:MAXLEN])
+        open(os.path.join(work, "corpus", "seedtags"), "wb").write(make_msg(rng, tags=fit_tags(rng, 100, 300), addr=b"/a")[0][:MAXLEN])
         open(os.path.join(work, "corpus", "seedb"), "wb").write(make_bundle(rng))
         runs = 150000 if tier == "quick" else 12000000
         try:
@@ -615,8 +835,14 @@ def _generate(rng, tier, stats):
         b = min(len(m) // 16, 32)
         stats["size_hist"][b] = stats["size_hist"].get(b, 0) + 1
         if m[:1] == b"/":
-            if decode(m, True) is not None:
+            d = decode(m, True)
+            if d is not None:
                 stats["strict_ok"] += 1
+                for t, v, o in d[2]:
+                    if isinstance(v, bytes) and len(v) > stats.get("max_payload", 0):
+                        stats["max_payload"] = len(v)
+                    if isinstance(v, bytes) and len(v) >= 256:
+                        stats["payload_ge_256"] = stats.get("payload_ge_256", 0) + 1
             elif decode(m, False) is not None:
                 stats["lax_only"] += 1
         return "V " + hx(m)
@@ -639,7 +865,7 @@ def _generate(rng, tier, stats):
         for s in all_strings(ALPHA6, 7):
             stats["tails"] += 1
             yield emit("tail", pre + s)
-        for _ in range(400000):
+        for _ in range(250000):
             stats["tails"] += 1
             yield emit("tail", pre + bytes(rng.choice(ALPHA6) for _ in range(11)))
     # 3. canonical messages and their mutations
@@ -653,22 +879,56 @@ def _generate(rng, tier, stats):
             for k, x in mutate(rng, m, marks, stats):
                 stats["mutations"][k] = stats["mutations"].get(k, 0) + 1
                 yield emit(k, x)
-    for _ in range(2000 if quick else 30000):
-        m, marks = make_msg(rng)
-        for t in m[marks[2][1]:marks[2][2]]:
+    stats.update({"big_args": 0, "long_tags": 0, "long_addr": 0, "sweeps": {}, "max_payload": 0, "max_tags": 0,
+                  "max_addr": 0})
+    for it in range(2000 if quick else 24000):
+        r = rng.random()
+        if r < 0.80:
+            m, marks = make_msg(rng)
+        elif r < 0.92:       # one large string / blob (sizes around 2^6, 2^7, 2^8, and the largest that fits)
+            tg = rand_tags(rng, 0, 4) + rng.choice([b"s", b"b", b"S"]) + rand_tags(rng, 0, 3)
+            m, marks = make_msg(rng, tags=tg, big=rng.choice(BIG + ["max", "max", "max"]))
+            stats["big_args"] += 1
+        elif r < 0.97:       # more than 24 tags
+            m, marks = make_msg(rng, tags=fit_tags(rng, 25, rng.choice([40, 64, 130, 260, 400])), addr=rand_addr(rng, rng.randint(1, 8)))
+            stats["long_tags"] += 1
+        else:                # addresses longer than 40 bytes
+            m, marks = make_msg(rng, tags=rand_tags(rng, 0, 4), addr=rand_addr(rng, rng.choice(
+                [41, 63, 64, 65, 100, 127, 128, 129, 200, 255, 256, 257, 300, 400, 470])), big=rng.choice([None, 8, "max"]))
+            stats["long_addr"] += 1
+        if len(m) > MAXLEN:
+            continue
+        tg = m[marks[2][1]:marks[2][2]]
+        for t in tg:
             stats["tag_count"][chr(t)] = stats["tag_count"].get(chr(t), 0) + 1
+        stats["max_tags"] = max(stats["max_tags"], len(tg))
+        stats["max_addr"] = max(stats["max_addr"], marks[0][1])
         stats["canonical"] += 1
         yield emit("canon", m)
         for k, x in mutate(rng, m, marks, stats):
             stats["mutations"][k] = stats["mutations"].get(k, 0) + 1
             yield emit(k, x)
+        if r >= 0.80 and it % 4 == 0:
+            for k, x in long_run_mutations(rng, m, marks):
+                stats["mutations"][k] = stats["mutations"].get(k, 0) + 1
+                yield emit(k, x)
     # every address length 1..40 (every residue mod 4)
     for n in range(1, 41):
         m, marks = make_msg(rng, addr=rand_addr(rng, n))
         stats["canonical"] += 1
         yield emit("canon", m)
+    # every size of every variable-length part, terminated and not
+    for k, x in size_sweeps(rng, quick, stats):
+        stats["sweeps"][k] = stats["sweeps"].get(k, 0) + 1
+        yield emit(k, x)
+    # long NUL-free runs in place of a payload
+    for _ in range(30 if quick else 1500):
+        m, marks = make_msg(rng, tags=rng.choice([b"s", b"si", b"is", b"ss", b"b", b"bs", b"sb", b"Sb", b"[s]i"]))
+        for k, x in long_run_mutations(rng, m, marks):
+            stats["mutations"][k] = stats["mutations"].get(k, 0) + 1
+            yield emit(k, x)
     # 4. random bytes
-    for _ in range(20000 if quick else 1500000):
+    for _ in range(20000 if quick else 1000000):
         stats["random"] += 1
         r = rng.random()
         n = rng.randint(0, 24) if r < 0.5 else (rng.randint(0, 128) if r < 0.9 else rng.randint(0, 512))
